@@ -47,6 +47,8 @@ type kase struct {
 	Ord  []int    `json:"order"`               // dkg: arrival order of dealers; recover: map insertion order (member indices); gen-*: arrival order of the first k shares
 	Ch   []int    `json:"choices"`             // explorer choice sequence (random k-pick, map iteration start positions)
 	IDv  []string `json:"id_values,omitempty"` // informational
+
+	minDev int // executions with fewer deviations repeat an earlier phase and are not counted again
 }
 
 type result struct {
@@ -612,6 +614,17 @@ var sampleParts = map[string]int{}
 
 func record(c *fw.Ctx, g *group, k kase, choices []int, r result) {
 	c.Eval(1)
+	if !r.bad && k.minDev > 0 {
+		dev := 0
+		for _, v := range choices {
+			if v != 0 {
+				dev++
+			}
+		}
+		if dev < k.minDev {
+			return // this execution was already counted by an earlier phase
+		}
+	}
 	if r.outcome == "steering-ineffective" {
 		c.Cap("the random k-selection could not be steered through crypto/rand.Reader (" + r.obs + ")")
 		return
@@ -766,113 +779,152 @@ func run(c *fw.Ctx) {
 		}
 		return stop
 	}
+	type cfgT struct {
+		n, seed int
+		idkind  string
+	}
+	cache := map[cfgT]*group{}
 	var groups, geOrder int64
-	for _, n := range tp.ns {
-		for seed := 0; seed < tp.seeds; seed++ {
-			for _, idkind := range idkinds {
-				if expired() {
-					break
-				}
-				t0 := cpuMs()
-				g := setup(n, seed, idkind)
-				c.Count("cpu_ms_setup", cpuMs()-t0)
-				groups++
-				geOrder += int64(g.geOrder)
-				for _, r := range g.setupBad {
-					k := g.kase("dkg", 0)
-					k.Ord = idrev(n)[0]
-					c.Outcome("VIOLATION " + r.sig)
-					c.Violation(r.sig, "dkg", r.msg, k)
-				}
-				if !g.ready() {
-					continue
-				}
-				k := g.k
-
-				// --- A. DKG: every arrival order (all permutations n<=5, rotations+reversals above), every member
-				var arrivals [][]int
-				if n <= 5 {
-					arrivals = perms(n)
-				} else {
-					arrivals = rotrev(n)
-				}
-				for ai, ord := range arrivals {
-					if !mine() || expired() {
-						continue
+	phases := 1
+	if tp.supBound > 1 || tp.supRev {
+		phases = 2
+	}
+	// phase 0: everything, supersets with deviation bound 1 in insertion order of the member index;
+	// phase 1 (thorough): supersets again with the larger deviation bound and in reverse insertion order.
+	for phase := 0; phase < phases; phase++ {
+		for _, n := range tp.ns {
+			for seed := 0; seed < tp.seeds; seed++ {
+				for _, idkind := range idkinds {
+					if expired() {
+						break
 					}
-					for i := 0; i < n; i++ {
-						ks := g.kase("dkg", 0)
-						ks.Mem, ks.Ord = i, ord
-						if ai == 0 || ai == len(arrivals)-1 {
-							// additionally every start position of the two map iterations of the aggregation
-							explore(c, g, ks, 1)
-						} else {
-							_, r := dkgRun(g, i, ord, nil)
-							record(c, g, ks, nil, r)
+					g := cache[cfgT{n, seed, idkind}]
+					if g == nil {
+						t0 := cpuMs()
+						g = setup(n, seed, idkind)
+						c.Count("cpu_ms_setup", cpuMs()-t0)
+						cache[cfgT{n, seed, idkind}] = g
+						groups++
+						geOrder += int64(g.geOrder)
+						for _, r := range g.setupBad {
+							k := g.kase("dkg", 0)
+							k.Ord = idrev(n)[0]
+							c.Outcome("VIOLATION " + r.sig)
+							c.Violation(r.sig, "dkg", r.msg, k)
 						}
 					}
-				}
+					if !g.ready() {
+						continue
+					}
+					k := g.k
 
-				for _, mi := range tp.msgsFor(n, seed) {
-					// --- pairing checks: every share under the member's public share, the result under the group key
-					for i := 0; i < n; i++ {
+					if phase == 1 {
+						for _, mi := range tp.msgsFor(n, seed) {
+							for s := k + 1; s <= n; s++ {
+								for _, sub := range combos(n, s) {
+									if !mine() || expired() {
+										continue
+									}
+									for pi, p := range idrev(s) {
+										if pi == 1 && !tp.supRev {
+											continue
+										}
+										ks := g.kase("recover", mi)
+										ks.Ord = apply(sub, p)
+										if pi == 0 {
+											if tp.supBound < 2 {
+												continue
+											}
+											ks.minDev = 2 // <= 1 deviation was phase 0
+										}
+										explore(c, g, ks, tp.supBound)
+									}
+								}
+							}
+						}
+						continue
+					}
+
+					// --- A. DKG: every arrival order (all permutations n<=5, rotations+reversals above), every member
+					var arrivals [][]int
+					if n <= 5 {
+						arrivals = perms(n)
+					} else {
+						arrivals = rotrev(n)
+					}
+					for ai, ord := range arrivals {
 						if !mine() || expired() {
 							continue
 						}
-						ks := g.kase("share-verify", mi)
-						ks.Mem = i
-						record(c, g, ks, nil, execCase(g, &ks, nil))
-					}
-					if mine() && !expired() {
-						ks := g.kase("group-verify", mi)
-						record(c, g, ks, nil, execCase(g, &ks, nil))
-						controls(c, g, mi)
-					}
-
-					// --- B1. RecoverGroupSignature on maps of every size k..n
-					for s := k; s <= n; s++ {
-						for _, sub := range combos(n, s) {
-							if !mine() || expired() {
-								continue
-							}
-							var ins [][]int
-							bound := 1
-							switch {
-							case s > k:
-								ins = idrev(s)
-								if !tp.supRev {
-									ins = ins[:1]
-								}
-								bound = tp.supBound
-							case k <= 4:
-								ins = perms(k)
-							default:
-								ins = idrev(k)
-							}
-							for _, p := range ins {
-								ks := g.kase("recover", mi)
-								ks.Ord = apply(sub, p)
-								explore(c, g, ks, bound)
+						for i := 0; i < n; i++ {
+							ks := g.kase("dkg", 0)
+							ks.Mem, ks.Ord = i, ord
+							if ai == 0 || ai == len(arrivals)-1 {
+								// additionally every start position of the two map iterations of the aggregation
+								explore(c, g, ks, 1)
+							} else {
+								_, r := dkgRun(g, i, ord, nil)
+								record(c, g, ks, nil, r)
 							}
 						}
 					}
 
-					// --- B2. the two share collectors, every k-subset, arrival orders
-					var orders [][]int
-					if k <= 4 {
-						orders = perms(k)
-					} else {
-						orders = rotrev(k)
-					}
-					for _, sub := range combos(n, k) {
-						for _, which := range []string{"gen-model", "gen-round"} {
+					for _, mi := range tp.msgsFor(n, seed) {
+						// --- pairing checks: every share under the member's public share, the result under the group key
+						for i := 0; i < n; i++ {
 							if !mine() || expired() {
 								continue
 							}
-							for _, p := range orders {
-								ks := g.kase(which, mi)
-								ks.Ord = apply(sub, p)
-								explore(c, g, ks, tp.genBound(n))
+							ks := g.kase("share-verify", mi)
+							ks.Mem = i
+							record(c, g, ks, nil, execCase(g, &ks, nil))
+						}
+						if mine() && !expired() {
+							ks := g.kase("group-verify", mi)
+							record(c, g, ks, nil, execCase(g, &ks, nil))
+							controls(c, g, mi)
+						}
+
+						// --- B1. RecoverGroupSignature on maps of every size k..n
+						for s := k; s <= n; s++ {
+							for _, sub := range combos(n, s) {
+								if !mine() || expired() {
+									continue
+								}
+								var ins [][]int
+								switch {
+								case s > k:
+									ins = idrev(s)[:1]
+								case k <= 4:
+									ins = perms(k)
+								default:
+									ins = idrev(k)
+								}
+								for _, p := range ins {
+									ks := g.kase("recover", mi)
+									ks.Ord = apply(sub, p)
+									explore(c, g, ks, 1)
+								}
+							}
+						}
+
+						// --- B2. the two share collectors, every k-subset, arrival orders
+						var orders [][]int
+						if k <= 4 {
+							orders = perms(k)
+						} else {
+							orders = rotrev(k)
+						}
+						for _, sub := range combos(n, k) {
+							for _, which := range []string{"gen-model", "gen-round"} {
+								if !mine() || expired() {
+									continue
+								}
+								for _, p := range orders {
+									ks := g.kase(which, mi)
+									ks.Ord = apply(sub, p)
+									explore(c, g, ks, tp.genBound(n))
+								}
 							}
 						}
 					}
@@ -880,11 +932,11 @@ func run(c *fw.Ctx) {
 			}
 		}
 	}
-	// every worker builds every group
 	c.Note("groups_per_worker", groups)
 	c.Note("member_ids_ge_group_order_per_worker", geOrder)
 	c.Note("max_choice_points_per_execution", maxPoints)
 	c.Note("group_sizes", tp.ns)
+	c.Note("superset_deviation_bound", tp.supBound)
 	c.Note("excluded", "member ids that are 0 or pairwise congruent modulo the group order are outside the statement's setting (no Shamir scheme can interpolate them) and are not generated")
 	c.Note("map_bound", "maps with <= 8 entries: every distinct iteration order Go can produce (all occupied start slots); maps with 9..10 entries (n=9,10 supersets / DKG pools): all 16 start positions, but the bucket assignment depends on the per-map hash seed, so those orders are enumerated without being reproducible")
 }
